@@ -250,6 +250,13 @@ def run(ctx):
                         '"nearest shorter and longer tabulated events" is read with ties (5000 / 5K are both at 5 km): between the extremes over all nearest candidates, using the implementation\'s own factors / bests of those rows',
                         'beyond 200 km the open best is extrapolated at the last row\'s speed and below 50 m it is the 50 m best: accepted as "use the nearest end of the table"',
                         'the model is the REPAIRED behaviour of fixes/wma-*.diff; on a tree without them the differences are reported as violations']
+    # the tables themselves against the specification-side copy (shared with C14): a mistyped open best, factor or distance
+    # cell moves model and implementation together, so it is judged against the pinned published tables, before the translation
+    try:
+        import importlib
+        importlib.import_module('checks.c14').pinned_tables(ctx)
+    except Exception as e:
+        ctx.oblig('spec:WMA tables of the tree = the pinned copy of the published tables', 'correspondence', False, repr(e))
     side = H.gen_step(ctx)
     if side is None:
         return
